@@ -423,13 +423,17 @@ def classify(inv_text: str, mm, target: str) -> str:
                         kinds.add(mmg.cprim_constrainee(mm, t.name) or "cprim")
                     else:
                         kinds.add("class")
+    if target == "cpp" and "len(" in inv_text and "-" in inv_text:
+        # `x.size()` is an unsigned std::size_t: `len(x) - 1` wraps around for an empty x, and a
+        # negative value compared with a length is converted to a huge unsigned number
+        return "unsigned-length"
     str_literal = bool(re.search(r"""(==|!=)\s*['"]""", inv_text))
     if target == "java" and ("==" in ops or "!=" in ops):
         eqs = re.findall(r"([A-Za-z_.0-9\[\]()]+)\s*(?:==|!=)\s*([A-Za-z_.0-9\[\]()'\" /-]+)", inv_text)
         for l, r in eqs:
             l_lit = bool(re.fullmatch(r"-?[0-9.]+|True|False", l.strip("() ")))
             r_lit = bool(re.fullmatch(r"-?[0-9.]+|True|False", r.strip("() ")))
-            is_len = "len(" in l or "len(" in r
+            is_len = "len(" in l or "len(" in r or bool(re.search(r" [+-] ", l + " " + r))  # primitive in Java
             r_str = r.strip().startswith(("'", '"'))
             if r_str or (not l_lit and not r_lit and not is_len and (kinds & {"str", "int", "float"})):
                 return "boxed-equality"
